@@ -54,8 +54,8 @@ def parseComp (s : Str) : CompR :=
     if r1.1 > two63 then .err else
     let pre := r1.2.1 != 0
     let fr : Nat × Nat × Str := match r1.2.2 with
-      | '.' :: t => leadDigits t 0 0
-      | t => (0, 0, t)
+      | [] => (0, 0, [])
+      | c :: t => if c == '.' then leadDigits t 0 0 else (0, 0, c :: t)
     if !pre && fr.2.1 == 0 then .err else
     let us := spanUnit fr.2.2
     if us.1.isEmpty then .err else
@@ -90,21 +90,18 @@ inductive DurR where
   | ood
 deriving Repr, DecidableEq
 
-/-- time.ParseDuration -/
-def parseDuration (s : Str) : DurR :=
-  let neg := match s with
-    | '-' :: _ => true
-    | _ => false
-  let s1 := match s with
-    | '-' :: t => t
-    | '+' :: t => t
-    | t => t
+/-- time.ParseDuration after the sign -/
+def parseDurationCore (neg : Bool) (s1 : Str) : DurR :=
   if s1 = ['0'] then .ok 0
   else if s1.isEmpty then .err
   else match parseLoop (s1.length + 1) s1 0 with
     | .err => .err
     | .ood => .ood
     | .ok d => if neg then .ok (-(d : Int)) else if d > two63 - 1 then .err else .ok d
+
+/-- time.ParseDuration -/
+def parseDuration (s : Str) : DurR :=
+  parseDurationCore (s.head? == some '-') (if s.head? == some '-' || s.head? == some '+' then s.tail else s)
 
 /-! ### Duration.String -/
 
